@@ -3,7 +3,25 @@ import datetime
 import decimal
 
 
+class SubInt(int):
+    """An int subclass instance (IntEnum members, user-defined codes ...): still a number."""
+
+    def __repr__(self):
+        return 'SubInt(%d)' % int(self)
+
+
+class SubFloat(float):
+    """A float subclass instance (numpy.float64-like)."""
+
+    def __repr__(self):
+        return 'SubFloat(%r)' % float(self)
+
+
 def enc(v):
+    if type(v) is SubInt:
+        return {'t': 'subint', 'v': int(v)}
+    if type(v) is SubFloat:
+        return {'t': 'subfloat', 'v': float(v)}
     if v is None or isinstance(v, (bool, int, str)):
         return v
     if isinstance(v, float):
@@ -41,6 +59,10 @@ def dec(j):
     t, v = j.get('t'), j.get('v')
     if t == 'float':
         return float(v)
+    if t == 'subint':
+        return SubInt(v)
+    if t == 'subfloat':
+        return SubFloat(v)
     if t == 'bytes':
         return bytes.fromhex(v)
     if t == 'decimal':
